@@ -22,10 +22,18 @@ static void *dlog[MAXE]; static int ndlog;
 static void dtor_cb(void *p) { if (ndlog < MAXE) dlog[ndlog++] = p; }
 
 static long n_cmp_calls;
+static int ptr_signed, ptr_locked;
 static int cmp_cb(void *a, void *b) { n_cmp_calls++; long x = ((elem_t *)a)->key, y = ((elem_t *)b)->key; return (x > y) - (x < y); }
 static int model_cmp(set_t *s, void *a, void *b) {
     if (s->user_cmp) return cmp_cb(a, b);
+    /* default comparator: any consistent total order of the pointer values is accepted; the two natural ones (unsigned
+     * and signed) differ only when handles from both halves of the address space meet: the first such set decides which
+     * one the implementation uses and the harness holds it to that for the rest of the process */
+    if (ptr_signed) return ((intptr_t)a > (intptr_t)b) - ((intptr_t)a < (intptr_t)b);
     return ((uintptr_t)a > (uintptr_t)b) - ((uintptr_t)a < (uintptr_t)b);
+}
+static void model_resort(set_t *s) {
+    for (int i = 1; i < s->n; i++) { void *e = s->model[i]; int j = i; while (j > 0 && model_cmp(s, s->model[j - 1], e) > 0) { s->model[j] = s->model[j - 1]; j--; } s->model[j] = e; }
 }
 
 static char prog_txt[6000]; static int prog_len;
@@ -43,7 +51,7 @@ static const char *ename(set_t *s, void *p) {
 }
 #define BAD(key, ...) do { char _b[700]; snprintf(_b, sizeof(_b), __VA_ARGS__); vf_fail(key, "cmp=%s dtor=%d seed=%llu: %s | program: %s", s->user_cmp ? "user" : "default", s->with_dtor, cur_seed, _b, prog_txt); } while (0)
 
-static long long st_ops, st_rm_two_children, st_itr_rm, st_far_pairs, st_dtor, st_trav;
+static long long st_half_pairs, st_both_halves_sets, st_ops, st_rm_two_children, st_itr_rm, st_far_pairs, st_dtor, st_trav;
 
 static int m_find(set_t *s, void *key) { for (int i = 0; i < s->n; i++) if (model_cmp(s, key, s->model[i]) == 0) return i; return -1; }
 static void m_insert(set_t *s, void *e) {
@@ -107,6 +115,21 @@ static void verify(set_t *s, const char *what, bool deep) {
         if (ntv[o] != s->n) BAD("C11/traverse-count", "after %s: traversal %d visited %d elements, set has %d", what, o, ntv[o], s->n);
     }
     st_trav++;
+    if (!s->user_cmp && !ptr_locked && s->n >= 2 && ntv[0] == s->n) {
+        bool lo = false, hi = false;
+        for (int i = 0; i < s->n; i++) { if ((uintptr_t)s->model[i] >> 63) hi = true; else lo = true; }
+        if (lo && hi) {
+            bool same = true;
+            for (int i = 0; i < s->n; i++) if (tv[0][i] != s->model[i]) same = false;
+            if (!same) {
+                ptr_signed = 1; model_resort(s);
+                for (int i = 0; i < s->n; i++) if (tv[0][i] != s->model[i]) { ptr_signed = 0; break; }
+                if (!ptr_signed) model_resort(s);
+            }
+            ptr_locked = 1;
+            st_both_halves_sets++;
+        }
+    }
     for (int i = 0; i < s->n; i++) {
         if (tv[0][i] != s->model[i]) {
             BAD("C11/inorder-mismatch", "after %s: in-order position %d yields %s, model (ascending) expects %s", what, i, ename(s, tv[0][i]), ename(s, s->model[i]));
@@ -235,13 +258,13 @@ static void s_free(set_t *s, uint64_t live0) {
 
 /* fake far-apart pointers for the default comparator (never dereferenced) */
 static void *far_ptr(vf_rng *r, void **pool, int npool) {
-    static const uint64_t deltas[] = { 1ULL << 32, 2ULL << 32, 3ULL << 32, (1ULL << 31) + 8, (1ULL << 31), (1ULL << 33) - 16, 1ULL << 40, 1ULL << 46, 16, 4096, (1ULL << 32) + 16, (1ULL << 32) - 16, 0x7fffffff0ULL };
+    static const uint64_t deltas[] = { 1ULL << 63, (1ULL << 63) + 16, (1ULL << 63) - 16, 1ULL << 62, 3ULL << 62, 0x7ffffffffffffff0ULL, 1ULL << 32, 2ULL << 32, 3ULL << 32, (1ULL << 31) + 8, (1ULL << 31), (1ULL << 33) - 16, 1ULL << 40, 1ULL << 46, 16, 4096, (1ULL << 32) + 16, (1ULL << 32) - 16, 0x7fffffff0ULL };
     uint64_t base = 0x100000000000ULL;
     if (npool && vf_chance(r, 3, 4)) {
         uint64_t p = (uint64_t)(uintptr_t)pool[vf_below(r, npool)];
         uint64_t d = deltas[vf_below(r, sizeof(deltas) / sizeof(*deltas))];
         uint64_t q = vf_chance(r, 1, 2) ? p + d : (p > d + 4096 ? p - d : p + d);
-        if (q < (1ULL << 47) && q > 4096) { st_far_pairs++; return (void *)(uintptr_t)q; }
+        if (q > 4096) { st_far_pairs++; if ((q ^ p) >> 63) st_half_pairs++; return (void *)(uintptr_t)q; }
     }
     return (void *)(uintptr_t)(base + 16 * (uint64_t)vf_below(r, 1 << 20) + ((uint64_t)vf_below(r, 64) << 32));
 }
@@ -349,6 +372,8 @@ int main(int argc, char **argv) {
     vf_stat("removals_of_two_children_nodes", st_rm_two_children);
     vf_stat("iterator_removals", st_itr_rm);
     vf_stat("far_apart_pointer_keys", st_far_pairs);
+    vf_stat("pointer_keys_2pow63_apart", st_half_pairs);
+    vf_stat("default_comparator_order_is_signed", ptr_signed);
     vf_stat("destructor_calls_checked", st_dtor);
     vf_stat("full_traversal_checks", st_trav);
     fflush(stdout);
